@@ -17,6 +17,7 @@ import (
 	"strings"
 	"sync"
 	"sync/atomic"
+	"syscall"
 	"time"
 
 	"github.com/movio/bramble"
@@ -154,6 +155,10 @@ func (w *simWorld) RoundTrip(req *http.Request) (*http.Response, error) {
 	if svc == nil {
 		return nil, errors.New("connection refused (no such service)")
 	}
+	if svc.Schema == nil {
+		// a poll-only world (C10): data requests get an empty answer
+		return jsonResp(req, 200, `{"data":null}`), nil
+	}
 	doc, verr := gqlparser.LoadQuery(svc.Schema, in.Query)
 	rec.Valid = verr == nil
 	if verr != nil {
@@ -275,6 +280,16 @@ func (w *simWorld) faultReply(req *http.Request, rec *recorded, f *fault, _ stri
 		v := bodies[(len(rec.Query)+len(rec.URL))%len(bodies)]
 		return jsonResp(req, v.code, v.body), nil
 	case "transport":
+		// the connection was accepted and then dropped before any response byte: what net/http reports for that is an
+		// io.EOF, a reset or a broken pipe (the variant follows from the request's content)
+		switch (len(rec.Query) + len(rec.URL)) % 4 {
+		case 0:
+			return nil, io.EOF
+		case 1:
+			return nil, fmt.Errorf("read tcp 10.0.0.1:5000->10.0.0.2:80: read: %w", syscall.ECONNRESET)
+		case 2:
+			return nil, fmt.Errorf("write tcp 10.0.0.1:5000->10.0.0.2:80: write: %w", syscall.EPIPE)
+		}
 		return nil, errors.New("connection reset by peer (simulated)")
 	case "timeout":
 		// what net/http reports when the client's timeout or the request context's deadline expires
